@@ -200,6 +200,31 @@ def generated_document(rng):
 
 
 # ---------------------------------------------------------------- one history
+_PNG_A = (b"\x89PNG\r\n\x1a\n\x00\x00\x00\rIHDR\x00\x00\x00\x01\x00\x00\x00\x01\x08\x02\x00\x00\x00\x90wS\xde\x00\x00\x00\x0cIDATx\x9cc\xf8\xcf\xc0"
+          b"\x00\x00\x03\x01\x01\x00\xc9\xfe\x92\xef\x00\x00\x00\x00IEND\xaeB`\x82")
+
+
+def merge_source(doc_type: str):
+    """A document of the same type whose first master page shows a picture and whose office:styles hold a fill image:
+    the two kinds of styles merge_styles_from copies together with a part of the package."""
+    from odfdo import Document, DrawFillImage, Frame
+
+    source = Document(doc_type)
+    pics = {}
+    uri = source.add_file(io.BytesIO(_PNG_A))
+    pics[uri] = _PNG_A
+    masters = source.get_styles("master-page")
+    if masters:
+        masters[0].append(Frame.image_frame(uri, size=("1cm", "1cm"), position=("0cm", "0cm")))
+    other = _PNG_A + b"fill"
+    uri2 = source.add_file(io.BytesIO(other))
+    pics[uri2] = other
+    source.insert_style(DrawFillImage(name="verif_fill", url=uri2), automatic=False)
+    if not masters:
+        del pics[uri]
+    return source, pics
+
+
 def history(seed: int, nsteps: int = 10, sources=None) -> list:
     from odfdo import Document, DrawPage, Paragraph, Style, Table
 
@@ -266,6 +291,8 @@ def history(seed: int, nsteps: int = 10, sources=None) -> list:
 
         # one history out of five keeps saving onto the SAME file or folder while parts come and go
         resave = rng.random() < 0.2
+        # one history out of six also merges the styles of another document (which brings picture parts along)
+        merging = not resave and rng.random() < 0.17
         resave_pack = rng.choice(["folder", "folder", "zip"])
         for _ in range(nsteps):
             k += 1
@@ -273,7 +300,8 @@ def history(seed: int, nsteps: int = 10, sources=None) -> list:
                 op = rng.choice(["add_file", "add_file", "del_part", "del_part", "save", "save", "save", "edit", "reopen"])
             else:
                 op = rng.choice(["edit", "edit", "edit", "set_part", "del_part", "add_file", "add_file", "save", "save", "save", "reopen", "clone", "read"]
-                                + (["save_twin", "save_twin"] if "twin" in handles else []))
+                                + (["save_twin", "save_twin"] if "twin" in handles else [])
+                                + (["merge", "merge", "del_part", "save"] if merging else []))
             ev = {"op": op}
             try:
                 if op == "edit":
@@ -332,6 +360,21 @@ def history(seed: int, nsteps: int = 10, sources=None) -> list:
                     deleted_any = True
                     ev["part"] = name
                     known.discard(name)
+                elif op == "merge":
+                    source, pics = merge_source(doc_type)
+                    doc.merge_styles_from(source)
+                    handles.pop("body", None)
+                    for which in ("content.xml", "styles.xml"):
+                        root = doc.get_part(which).root._Element__element
+                        events.append({"op": "edit", "part": which, "via": "merge", "new": part_ids(which, etree.tostring(root), ids)})
+                        known.add(which)
+                    ev["op"] = "read"
+                    ev["view"] = {}
+                    for uri, content in sorted(pics.items()):
+                        events.append({"op": "merge_pic", "part": uri, "new": part_ids(uri, content, ids)})
+                        known.add(uri)
+                        added[uri] = content
+                    ev["view"] = doc_view(doc, sorted(pics), ids)
                 elif op == "add_file" and rng.random() < 0.08:
                     # a burst of distinct files, recorded as the last one (the others are separate events below)
                     for j in range(rng.randint(12, 24)):
